@@ -42,7 +42,7 @@ DATA = {"MC_DataReal": ["psi", "mu", "supercurrent", "normal_current", "induced_
 LABELS = ["step", "time", "dt"]
 
 
-def normalise(obs, consts, quantities):
+def normalise(obs, consts, quantities, expect="returned"):
     """Observed events of the two real processes -> trace for MonitorChannelTrace."""
     data = DATA[consts["data"]]
     written = {}          # key -> list of (version, hash)
@@ -54,7 +54,7 @@ def normalise(obs, consts, quantities):
         if e["p"] == "W":
             op = e["op"]
             if op == "done":
-                ev.append({"p": "W", "op": "done", "ok": 1 if e.get("res") == "returned" else 0})
+                ev.append({"p": "W", "op": "done", "ok": 1 if str(e.get("res")).startswith(expect) else 0})
                 continue
             key = e.get("key", "-")
             top = not key.startswith("data/-1")
@@ -134,21 +134,32 @@ def run(ctx):
             a = dict(schedule=s["sched"], tail="W", max_ops=3000, reader_stop_after=400,
                      writer=dict(wargs, solve_time=max(steps, 1) * DT - DT / 2), reader=dict(quantities=quantities))
             jobs.append(("call", dict(module="harness.monitor", func="run_schedule", args=a)))
-            meta.append((fam, consts, quantities))
+            meta.append((fam, consts, quantities, "returned"))
+    # runs that are stopped from inside (cancelled with Ctrl-C directly / through the pause prompt; an error in the update)
+    # and a thermalised run: the channel protocol and its removal do not depend on how the run ends
+    sched = [1] * 30 + [0, 1] * 200
+    for fam, wargs, expect in (("static/cancelled", dict(fault_at=4, fault_kind="KI"), "returned"),
+                               ("static/cancelled-at-prompt", dict(fault_at=3, fault_kind="KI", pause=True, k=2), "returned"),
+                               ("static/error", dict(fault_at=4, fault_kind="Err"), "raised RuntimeError: injected"),
+                               ("static/thermalised", dict(skip_time=3 * DT - DT / 2), "returned")):
+        jobs.append(("call", dict(module="harness.monitor", func="run_schedule",
+                                  args=dict(schedule=sched, tail="W", max_ops=3000, writer=dict(wargs, solve_time=6 * DT - DT / 2),
+                                            reader=dict(quantities=["order_parameter"])))))
+        meta.append((fam, STATIC, ["order_parameter"], expect))
     # a run without a monitor: the channel is still written and removed
     jobs.append(("call", dict(module="harness.monitor", func="run_schedule",
                               args=dict(schedule=[], tail="W", max_ops=3000, writer=dict(solve_time=3 * DT - DT / 2, monitor=False), reader={}))))
-    meta.append(("static/no-monitor", STATIC, ["order_parameter"]))
+    meta.append(("static/no-monitor", STATIC, ["order_parameter"], "returned"))
     # the monitor comes up only after the run has finished (slow start): the only way it may fail
     jobs.append(("call", dict(module="harness.monitor", func="run_schedule",
                               args=dict(schedule=[1] * 400, tail="W", max_ops=3000, writer=dict(solve_time=2 * DT - DT / 2), reader=dict(quantities=["order_parameter"])))))
-    meta.append(("static/late-monitor", STATIC, ["order_parameter"]))
+    meta.append(("static/late-monitor", STATIC, ["order_parameter"], "returned"))
     results = rf.replay_all(ctx, jobs)
 
     # ---- 3. code -> spec
     groups = {}
-    for (fam, consts, quantities), obs in zip(meta, results):
-        t = normalise(obs, consts, quantities)
+    for (fam, consts, quantities, expect), obs in zip(meta, results):
+        t = normalise(obs, consts, quantities, expect)
         t["label"] = fam
         groups.setdefault((consts["data"], len(quantities)), (consts, [])) [1].append(t)
         ctx.note_case((fam, len(t["ev"]), json.dumps(obs["args"].get("schedule", []))[:80]),
